@@ -747,6 +747,9 @@ def alphabet_for(sets: Iterable[Set], syms: Iterable[Sym], extra_chars: str = ""
     return letters
 
 
+STEP_BUDGET = int(__import__("os").environ.get("VERIF_AUTOMATON_BUDGET", "250000"))
+
+
 class Lang:
     """on-the-fly determinised NFA"""
 
@@ -795,6 +798,10 @@ class Lang:
                         nxt.append(b)
         r = self.closure(nxt)
         self._st[key] = r
+        if len(self._st) > STEP_BUDGET:
+            # subset construction of bounded counters over overlapping classes can be exponential: give up on this obligation
+            # (UNDECIDED) instead of exhausting memory / time
+            raise Unsupported(f"automaton budget exceeded ({STEP_BUDGET} determinised transitions)")
         return r
 
     def acc(self, S: FrozenSet[int]) -> bool:
